@@ -196,6 +196,14 @@ func (fr *Frame) call(b *ssa.BasicBlock, idx int, ins ssa.Instruction, cc *ssa.C
 		c = u.C.Funcs[stripBrackets(key)]
 	}
 	if c != nil && !opaque {
+		// a contract that promises callers nothing (no requires / ensures / assumes, inferred frame: only call-site
+		// obligations inside the callee) leaves the caller where it would be without one: small loop-free bodies are
+		// inlined, which keeps interior pointers handed to the callee (&msg.Vote) precise
+		if c.thin() && callee != nil && inModule(callee) && fr.canInline(callee) {
+			u.usedContracts[c.Key] = true
+			fr.inline(b, idx, ins, callee, args, res, st, reach)
+			return
+		}
 		fr.applyContract(b, idx, ins, c, callee, args, res, st, reach)
 		return
 	}
